@@ -118,3 +118,17 @@ def aead(name, fn, lens, prop_prefix=None, **kw):
     )
     h.update(kw)
     return h
+
+
+def enc_gate(mode):
+    f = "matrixssl/sslEncode.c" if mode == 12 else "matrixssl/tls13Encode.c"
+    ren = ["writeRecordHeader", "encryptRecord"] if mode == 12 else ["tls13WriteRecordHeader", "tls13Encrypt"]
+    return dict(
+        name="enc_gate%d" % mode, dir="common", src="enc_gate.c", checks=[],
+        renames={f: ren},
+        functions=["matrixSslEncode"] if mode == 12 else ["tls13EncodeAppData", "isGoodStateForAppDataEncrypt"],
+        sources=[f],
+        assumptions=["enc_gate: record header writer and record sealing functions are stubs (ghost: reached); session state arbitrary (RI-ssl)"],
+        unwind=12,
+        cases=[dict(name="m%d" % mode, defs={"VF_MODE": mode})],
+    )
